@@ -202,5 +202,8 @@ func (f *Subseq) getArgs(s *slip.Scope, args slip.List, depth int) (start, end i
 	default:
 		slip.TypePanic(s, depth, "sequence", ta, "sequence")
 	}
+	if end < start {
+		slip.ErrorPanic(s, depth, "start %d is greater than end %d", start, end)
+	}
 	return
 }
